@@ -90,7 +90,7 @@ func ctxioHelpers() int {
 				n++
 			}
 		}
-		if n == 0 || try >= 40 {
+		if n == 0 || try >= 600 {
 			return n
 		}
 		time.Sleep(500 * time.Microsecond)
